@@ -22,6 +22,7 @@
 #include <hgraph/types/value/value_builder.h>
 
 #include <algorithm>
+#include <functional>
 #include <map>
 #include <memory>
 #include <optional>
@@ -93,8 +94,15 @@ namespace
         std::vector<std::int64_t> path;     // kind 2: child path (TSB/TSL indices only)
         std::int64_t              bind_at{0};
     };
+    // counts observers.notify calls on one node of the output ("notifies observers once")
+    struct Counter : Notifiable
+    {
+        std::int64_t n{0};
+        void         notify(DateTime) override { ++n; }
+    };
     struct Ctx
     {
+        std::map<std::vector<std::int64_t>, std::unique_ptr<Counter>> counters;
         std::unique_ptr<Shape> shape;
         std::vector<WriteOp>   ops;
         std::vector<Consumer>  cons;
@@ -242,8 +250,10 @@ namespace
     }
 
     // ------------------------------------------------------------------ reading
+    using Counters = std::map<std::vector<std::int64_t>, std::unique_ptr<Counter>>;
     template <typename V>
-    void read_tree(hgv::Out &out, std::int64_t who, std::int64_t now, const Shape &s, const V &v, std::vector<std::int64_t> &path)
+    void read_tree(hgv::Out &out, std::int64_t who, std::int64_t now, const Shape &s, const V &v, std::vector<std::int64_t> &path,
+                   const Counters *counters = nullptr)
     {
         Line l{20, who, now, (std::int64_t)path.size()};
         for (auto x : path) { l.push_back(x); }
@@ -282,6 +292,11 @@ namespace
         }
         l.push_back(has);
         l.push_back(dv);
+        if (counters != nullptr)
+        {
+            auto it = counters->find(path);
+            l.push_back(it == counters->end() ? -1 : it->second->n);
+        }
         out.line(l);
         if (s.kind == 1 || s.kind == 2)
         {
@@ -289,7 +304,7 @@ namespace
             {
                 auto c = v.indexed_child_at(i);
                 path.push_back((std::int64_t)i);
-                read_tree(out, who, now, s.child(i), c, path);
+                read_tree(out, who, now, s.child(i), c, path, counters);
                 path.pop_back();
             }
         }
@@ -308,7 +323,7 @@ namespace
                 Value key{k};
                 auto  c = dv2.at(key.view());
                 path.push_back(k);
-                read_tree(out, who, now, s.child(0), c, path);
+                read_tree(out, who, now, s.child(0), c, path, counters);
                 path.pop_back();
             }
         }
@@ -360,7 +375,38 @@ namespace
             schema.output_schema = ctx.shape->meta;
             schema.node_kind     = NodeKind::PullSource;
             NodeCallbacks cb;
+            cb.stop = [pc](const NodeView &v, DateTime t) {
+                auto out = v.output(t);
+                for (auto &kv : pc->counters)
+                {
+                    TSDataView cur = out.data_view().borrowed_ref();
+                    for (auto i : kv.first) { TSDataView nx = cur.indexed_child_at((std::size_t)i); cur = std::move(nx); }
+                    cur.unsubscribe(kv.second.get());
+                }
+                pc->counters.clear();
+            };
             cb.start = [pc](const NodeView &v, DateTime t) {
+                // a counting observer on every statically indexed node of the output
+                {
+                    auto out = v.output(t);
+                    std::function<void(const Shape &, TSDataView, std::vector<std::int64_t> &)> walk =
+                        [&](const Shape &s, TSDataView cur, std::vector<std::int64_t> &path) {
+                            auto c = std::make_unique<Counter>();
+                            cur.subscribe(c.get());
+                            pc->counters[path] = std::move(c);
+                            if (s.kind == 1 || s.kind == 2)
+                            {
+                                for (std::size_t i = 0; i < s.n; ++i)
+                                {
+                                    path.push_back((std::int64_t)i);
+                                    walk(s.child(i), cur.indexed_child_at(i), path);
+                                    path.pop_back();
+                                }
+                            }
+                        };
+                    std::vector<std::int64_t> path;
+                    walk(*pc->shape, out.data_view().borrowed_ref(), path);
+                }
                 // wake at the first scripted write; evaluate re-arms for the next one
                 // (a second request would REPLACE a slot equal to the current time)
                 std::int64_t first = -1;
@@ -426,7 +472,7 @@ namespace
                 {
                     auto                      o = g.node_at(0).output(t);
                     std::vector<std::int64_t> path;
-                    read_tree(*pc->out, 0, us(t), *pc->shape, o, path);
+                    read_tree(*pc->out, 0, us(t), *pc->shape, o, path, &pc->counters);
                 }
                 for (std::size_t j = 1; j <= ncons; ++j)
                 {
